@@ -173,6 +173,15 @@ func (ev *Evaluator) initCellsOf(pkg *ssa.Package) map[*T]*T {
 		return nil
 	}
 	ev.initCells[pkg] = work.State.cells
+	// what the initialiser put into the maps it made (a package-level lookup table)
+	if ev.initMaps == nil {
+		ev.initMaps = map[*T][][2]*T{}
+	}
+	for _, e := range work.State.Events {
+		if e.Kind == EvMapUpdate && e.Addr != nil && e.Addr.Op == "makemap" && len(e.Args) == 1 {
+			ev.initMaps[e.Addr] = append(ev.initMaps[e.Addr], [2]*T{e.Args[0], e.Val})
+		}
+	}
 	return ev.initCells[pkg]
 }
 
@@ -212,3 +221,65 @@ func (ev *Evaluator) constGlobalLoad(addr *T) *T {
 }
 
 var _ = types.Typ
+
+// constMapLookup: m[k] where m is a map a package initialiser filled with constant keys and nothing modifies
+// afterwards. A constant key selects its entry; a symbolic key splits the path, one way per entry (k = that key) and
+// one for "none of them", so a table lookup and the chain of comparisons it replaced have the same summaries.
+// ok=false: not such a map (or too large), the lookup stays symbolic.
+func (ev *Evaluator) constMapLookup(st *State, fr *Frame, x *ssa.Lookup, m, k *T) (*T, []*State, bool) {
+	entries, known := ev.initMaps[m]
+	if !known || len(entries) == 0 || len(entries) > 8 {
+		return nil, nil, false
+	}
+	mt, isMap := x.X.Type().Underlying().(*types.Map)
+	if !isMap {
+		return nil, nil, false
+	}
+	ts := ev.TS
+	for _, e := range entries {
+		if e[0].Op != "const" && e[0].Op != "lin" {
+			return nil, nil, false
+		}
+	}
+	result := func(val *T, present bool) *T {
+		if x.CommaOk {
+			return ts.intern(&T{Op: "tuple", Args: []*T{val, ts.Bool(present)}})
+		}
+		return val
+	}
+	zero := ts.zeroOf(mt.Elem())
+	if isNillable(mt.Elem()) {
+		zero = ts.Nil(mt.Elem())
+	}
+	// later updates of the same key win
+	last := map[*T]*T{}
+	var keys []*T
+	for _, e := range entries {
+		if _, dup := last[e[0]]; !dup {
+			keys = append(keys, e[0])
+		}
+		last[e[0]] = e[1]
+	}
+	var forks []*State
+	for _, key := range keys {
+		c := ts.Cmp("==", k, key)
+		switch st.Facts.Truth(ts, c) {
+		case triT:
+			return result(last[key], true), forks, true
+		case triF:
+			continue
+		}
+		if probe := st.clone(); !probe.Facts.Assume(ts, c, false) {
+			return result(last[key], true), forks, true // k cannot differ from this key
+		}
+		o := st.clone()
+		if o.Facts.Assume(ts, c, true) {
+			of := o.top()
+			of.env[x] = result(last[key], true)
+			of.pc++
+			forks = append(forks, o)
+		}
+		st.Facts.Assume(ts, c, false)
+	}
+	return result(zero, false), forks, true
+}
